@@ -252,6 +252,13 @@ class Gen:
             return self.decl()
         if leaf:
             return ["R", self.selector(amp_ok or r.random() < self.p_invalid), []]
+        if k >= 0.3 and r.random() < 0.04:
+            return self.vanishing(depth, st)
+        if k >= 0.3 and r.random() < 0.015:
+            # @at-root directly inside @at-root (the inner one sees the outer one's copies as ancestors)
+            q1, q2 = r.choice(QUERIES), r.choice(QUERIES)
+            return ["A", q1, [["A", q2, [["R", self.selector(amp_ok), self.body(depth + 1, (True, True))]]]]
+                             + ([["R", self.selector(amp_ok), [self.decl()]]] if r.random() < 0.5 else [])]
         if k < 0.62:
             return ["R", self.selector(amp_ok or r.random() < self.p_invalid), self.body(depth + 1, (True, True))]
         if k < 0.74:
@@ -265,6 +272,24 @@ class Gen:
         q = r.choice(QUERIES)
         excl_rule = (q is None) or ((("rule" in q[1]) or ("all" in q[1])) != q[0])
         return ["A", q, self.body(depth + 1, (decl_ok and not excl_rule, amp_ok))]
+
+    def vanishing(self, depth, st):
+        """A construct without any declaration below it: a rule / @media / @supports that contains only
+        empty rules (to depth 2) — nothing of it may be written."""
+        r = self.rng
+        _, amp_ok = st
+        inner = [["R", self.selector(True), []] for _ in range(r.choice([1, 2]))]
+        if r.random() < 0.4:
+            inner = [["R", self.selector(True), inner]]
+        if r.random() < 0.3:
+            inner.append(["S", r.choice(SUPPORTS), [["R", self.selector(True), []]]])
+        k = r.random()
+        if k < 0.6:
+            return ["R", self.selector(amp_ok), inner]
+        outer = ["R", self.selector(amp_ok), inner]
+        if k < 0.8:
+            return ["M", [[r.randrange(4)]], [outer]]
+        return ["S", r.choice(SUPPORTS), [outer]]
 
     def tree(self):
         return self.body(0, (False, False))
@@ -360,6 +385,28 @@ def observe_css(css):
     return parts, top
 
 
+def empty_blocks(css):
+    """Preludes of written style rules / @media / @supports that have no child at all — the
+    predicate of C04_emitted_blocks_nonempty (`noEmptyBlock`) on grass's own output.  Unknown
+    at-rules may be written with an empty body (`@foo {}`, serializer.rs:1155)."""
+    out = []
+
+    def walk(nodes):
+        for nd in nodes:
+            if nd["type"] != "rule":
+                continue
+            p = nd["prelude"]
+            needs_body = (not p.startswith("@")) or p.startswith("@media") or p.startswith("@supports")
+            if needs_body and not [c for c in nd["children"] if c["type"] in ("rule", "decl", "stmt")]:
+                out.append(p)
+            walk(nd["children"])
+    walk(cssread.parse(css))
+    return out
+
+
+EMPTY_CHECKED = [0]
+
+
 def source_batch(trees, idxs):
     return "\n".join(body_text(trees[i]) + f"\n{SEP} {{ i: {i} }}" for i in idxs)
 
@@ -383,9 +430,10 @@ def compile_all(pool, trees, model_code):
         except cssread.IllFormed:
             retry += b
             continue
-        if top or any(i not in parts for i in b):
+        if top or any(i not in parts for i in b) or empty_blocks(ans["css"]):
             retry += b
             continue
+        EMPTY_CHECKED[0] += len(b)
         for i in b:
             obs[i] = parts[i]
     retry.sort()
@@ -403,6 +451,10 @@ def compile_all(pool, trees, model_code):
                 if top:
                     o = [((), None, top)] + o
                 obs[i] = o
+                EMPTY_CHECKED[0] += 1
+                e = empty_blocks(ans["css"])
+                if e:
+                    obs[i] = ("status", "empty-block-written", e)
             except cssread.IllFormed as e:
                 obs[i] = ("status", "ill-formed-css", str(e))
     return obs
@@ -428,14 +480,49 @@ def norm(r):
     return [(tuple(c), s, [tuple(d) for d in ds]) for c, s, ds in r]
 
 
-def constructs(tree, acc=None, depth=1):
+def has_decl(body):
+    return any(s[0] == "D" or has_decl(s[-1]) for s in body)
+
+
+def nprop_value(d):
+    return (d[2] is not None and bool(d[3])) or any(nprop_value(x) for x in d[3])
+
+
+def constructs(tree, acc=None, depth=1, path=()):
+    """Histogram keys of one tree; `path` = constructor letters of the enclosing statements."""
     acc = acc if acc is not None else {"depth": 0}
+
+    def bump(key):
+        acc[key] = acc.get(key, 0) + 1
     for s in tree:
         acc["depth"] = max(acc["depth"], depth)
         t = s[0]
         if t == "D":
-            acc["nprop" if s[3] else "decl"] = acc.get("nprop" if s[3] else "decl", 0) + 1
+            bump("nprop" if s[3] else "decl")
+            if nprop_value(s):
+                bump("nprop-with-value-and-block")          # `font: 12px { family: x }`
+            if path and path[-1] in "MSU" and "R" in path:
+                bump("decl-in-at-rule-in-rule")             # a { @media … { x: 1 } }: the rule is re-created inside
+            if path and path[-1] in "MSU" and "R" not in path:
+                bump("decl-directly-in-at-rule")
+            if "A" in path and path[-1] != "A" and "R" in path[path.index("A"):]:
+                bump("decl-in-rule-in-at-root")
             continue
+        if t in "RMSU" and s[-1] and not has_decl(s[-1]):
+            bump("vanishing:" + t)                          # non-empty body, but no declaration anywhere below
+        if t in "MSU" and not s[-1]:
+            bump("empty-at-rule:" + t)
+        if t == "A":
+            if "A" in path:
+                bump("A-in-A")
+            if path and path[-1] == "A":
+                bump("A-directly-in-A")
+            if s[1] is not None:
+                bump("A:" + ("with" if s[1][0] else "without") + ":" + "+".join(sorted(n.lower() for n in s[1][1])))
+            if path and "R" in path and any(p in "MSU" for p in path):
+                bump("A-in-rule-in-at-rule")
+        if t in "MSU" and "A" in path:
+            bump("at-rule-in-at-root")
         acc[t] = acc.get(t, 0) + 1
         if t == "R":
             for cx in s[1]:
@@ -453,7 +540,7 @@ def constructs(tree, acc=None, depth=1):
                 acc["empty-rule"] = acc.get("empty-rule", 0) + 1
         if t == "A" and s[1] is not None:
             acc["A-query"] = acc.get("A-query", 0) + 1
-        constructs(s[-1], acc, depth + 1)
+        constructs(s[-1], acc, depth + 1, path + (t,))
     return acc
 
 
@@ -629,6 +716,8 @@ def run(tier, seed):
     ck.assumptions = ["grass output observed through tools/cssread.py parse + flat_rules (declarations directly inside an "
                       "at-rule are read as one block placed before the rules nested in it)",
                       "blocks without declarations are not part of the observation; adjacent equal blocks are not merged",
+                      "every output is additionally scanned for written style rules/@media/@supports without children "
+                      "(predicate of C04_emitted_blocks_nonempty on grass's own CSS); one found = a direct failure",
                       "media queries are feature-only, so nested queries merge by conjunction (general merge: C17)"]
     ck.do_prove(cores=("csstree",))
     if not ck.do_build_runner():
@@ -640,6 +729,7 @@ def run(tier, seed):
     ck.cov["deviations_modelled_as_found"] = [TAGS[b] for b in range(3) if not MASK >> b & 1]
     trees = gen_trees(ck, tier)
     failing = evaluate(ck, pool, trees)
+    ck.cov["outputs_checked_for_empty_blocks"] = EMPTY_CHECKED[0]
     if (not ck.proof["ok"] or ck.cov["model_disagreements"]) and not [f for f in failing if not f["tags"]] and tier == "quick":
         log("[C04] proof or correspondence broken: enlarging the search")
         g = Gen(ck.rng, max_depth=5, max_width=3, p_invalid=0.05)
